@@ -177,6 +177,26 @@ def run_check(prop, tier='quick', replay=None):
     mod.check(ctx)
     if tier == 'thorough' and hasattr(mod, 'check_thorough'):
         mod.check_thorough(ctx)
+    selftest_broken = []
+    if tier == 'thorough' and 'PVX_REPO' not in os.environ:
+        # checker self-test: every seeded defect kept for this property must still be reported (on a scratch copy of /repo)
+        ctx.rule('SELFTEST', 'checker self-test (both directions): the unchanged tree is silent apart from listed known findings, and each seeded '
+                 'defect under /verif/seeded for this property, applied to a scratch copy of /repo\'s tracked files, is reported by the check. '
+                 'A seed that is no longer reported means the CHECKER is broken; it is not a property violation.')
+        r = subprocess.run([sys.executable, os.path.join(VERIF, 'bin', 'selftest.py'), prop], stdout=subprocess.PIPE, stderr=subprocess.STDOUT, text=True)
+        res = []
+        try:
+            res = json.load(open(os.path.join(CACHE, 'selftest-last.json')))
+        except Exception:
+            pass
+        ctx.count('selftest_seeds', len(res))
+        for e in res:
+            good = (e['result'] == 'caught') == bool(e['expected_caught']) or (e['result'] == 'caught')
+            ctx.notes.append('selftest %s: %s (expected %s)' % (e['seed'], e['result'], 'caught' if e['expected_caught'] else 'not caught'))
+            if not good:
+                selftest_broken.append(e['seed'])
+        if r.returncode != 0 and not selftest_broken:
+            selftest_broken.append('selftest harness failed: ' + r.stdout[-300:])
     known = [k for k in load_known() if k.get('property') == prop and 'fixed' not in k]
     known_keys = {(k['rule'], k['instance']): k for k in known}
     violations = []
@@ -202,6 +222,9 @@ def run_check(prop, tier='quick', replay=None):
     n_ok = sum(1 for o in ctx.obs if o.ok)
     print('[pvx] %s %s: %d obligations, %d discharged, %d known finding(s), %d violation(s); %.1fs'
           % (prop, tier, len(ctx.obs), n_ok, len(known_hit), len(violations), time.time() - t0))
+    if selftest_broken and not violations:
+        print('CHECKER-BROKEN property=%s seeded defect(s) no longer reported: %s' % (prop, selftest_broken))
+        return 2
     return 1 if violations else 0
 
 
